@@ -8,7 +8,14 @@ package biscuit
 import (
 	"crypto/ed25519"
 	"errors"
+	"time"
+
+	"github.com/biscuit-auth/biscuit-go/v2/datalog"
 )
+
+// gPatient: a generous deadline for native replays (the default 2ms makes results depend on machine
+// load); in the interpreter the deadline is symbolic and, in these harnesses, never reached.
+var gPatient = WithWorldOptions(datalog.WithMaxDuration(30 * time.Second))
 
 type gAtom struct {
 	name  string
